@@ -21,11 +21,17 @@ VERIF = os.path.dirname(os.path.dirname(os.path.abspath(__file__)))
 REPO = os.environ.get("GRASS_REPO", "/repo")
 LEAN = os.path.join(VERIF, "lean")
 BUILD = os.path.join(VERIF, ".build")
-CARGO_TARGET = os.path.join(BUILD, "cargo")
+# ALT mode: GRASS_REPO=<other tree> runs the same checks against a scratch copy/worktree of grass
+# (used to try seeded changes without touching /repo); it gets its own runner copy, cargo target
+# and evidence/replay directories so nothing of the real run is overwritten.
+ALT = REPO.rstrip("/") != "/repo"
+_ALT_DIR = os.path.join(BUILD, "alt-" + hashlib.sha1(REPO.encode()).hexdigest()[:10])
+RUNNER_SRC = os.path.join(_ALT_DIR, "runner") if ALT else os.path.join(VERIF, "runner")
+CARGO_TARGET = os.path.join(_ALT_DIR, "cargo") if ALT else os.path.join(BUILD, "cargo")
 RUNNER_BIN = os.path.join(CARGO_TARGET, "debug", "grass_verif_runner")
 DRIVER_BIN = os.path.join(LEAN, ".lake", "build", "bin", "driver")
-EVIDENCE = os.path.join(VERIF, "evidence")
-REPLAYS = os.path.join(VERIF, "replays")
+EVIDENCE = os.path.join(_ALT_DIR, "evidence") if ALT else os.path.join(VERIF, "evidence")
+REPLAYS = os.path.join(_ALT_DIR, "replays") if ALT else os.path.join(VERIF, "replays")
 KNOWN = os.path.join(VERIF, "known-findings.json")
 KNOWN_D = os.path.join(VERIF, "known-findings.d")
 ALLOWED_AXIOMS = {"propext", "Classical.choice", "Quot.sound"}
@@ -229,12 +235,21 @@ def unhex(h):
 
 def build_runner():
     """Rebuild the runner (and therefore grass_compiler) from /repo's current working tree."""
-    lockfile = os.path.join(VERIF, "runner", "Cargo.lock")
-    with Lock("cargo"):
+    import shutil
+    if ALT:
+        os.makedirs(os.path.join(RUNNER_SRC, "src"), exist_ok=True)
+        src = os.path.join(VERIF, "runner")
+        toml = open(os.path.join(src, "Cargo.toml")).read().replace("/repo/crates/compiler", os.path.join(REPO, "crates/compiler"))
+        open(os.path.join(RUNNER_SRC, "Cargo.toml"), "w").write(toml)
+        shutil.copy(os.path.join(src, "src", "main.rs"), os.path.join(RUNNER_SRC, "src", "main.rs"))
+        os.makedirs(os.path.join(RUNNER_SRC, ".cargo"), exist_ok=True)
+        shutil.copy(os.path.join(src, ".cargo", "config.toml"), os.path.join(RUNNER_SRC, ".cargo", "config.toml"))
+    lockfile = os.path.join(RUNNER_SRC, "Cargo.lock")
+    with Lock("cargo" + ("-" + os.path.basename(_ALT_DIR) if ALT else "")):
         if not os.path.exists(lockfile):
-            import shutil
-            shutil.copy(os.path.join(REPO, "Cargo.lock"), lockfile)
-        rc, out = sh(["cargo", "build", "--offline", "--quiet"], cwd=os.path.join(VERIF, "runner"),
+            base = os.path.join(VERIF, "runner", "Cargo.lock")
+            shutil.copy(base if os.path.exists(base) else os.path.join(REPO, "Cargo.lock"), lockfile)
+        rc, out = sh(["cargo", "build", "--offline", "--quiet"], cwd=RUNNER_SRC,
                      env={"CARGO_TARGET_DIR": CARGO_TARGET}, timeout=3000)
     if rc != 0:
         errs = "\n".join(l for l in out.split("\n") if "warning" not in l)[-4000:]
@@ -242,13 +257,14 @@ def build_runner():
     return True, ""
 
 
-GRASS_BIN = os.path.join(BUILD, "repo-target", "debug", "grass")
+_CLI_TARGET = os.path.join(_ALT_DIR, "repo-target") if ALT else os.path.join(BUILD, "repo-target")
+GRASS_BIN = os.path.join(_CLI_TARGET, "debug", "grass")
 
 
 def build_cli():
-    with Lock("cargo-cli"):
+    with Lock("cargo-cli" + ("-" + os.path.basename(_ALT_DIR) if ALT else "")):
         rc, out = sh(["cargo", "build", "--offline", "--quiet", "-p", "grass"], cwd=REPO,
-                     env={"CARGO_TARGET_DIR": os.path.join(BUILD, "repo-target")}, timeout=3000)
+                     env={"CARGO_TARGET_DIR": _CLI_TARGET}, timeout=3000)
     return rc == 0, out[-4000:]
 
 
